@@ -77,7 +77,7 @@ Variable dinit : dstate.
 Variable dstep : dstate -> bytes -> dstate * bytes.
 Variable dflush : dstate -> bytes.
 Variable derr : dstate -> bool.
-Variable decode : bytes -> ires str.
+Variable decode : bytes -> option str.
 Variable match_line : str -> option (str * str * str * str * str).
 
 Notation readline := (readline decode).
